@@ -393,7 +393,7 @@ class TypeGen:
             cd["frozen"] = chance(d, 0.2)
             if cfg["class_aliaser"] and chance(d, 0.12):
                 cd["aliaser"] = pick(d, ["upper", "pfx"])
-            if cfg["dep_req"] and chance(d, 0.12):
+            if cfg["dep_req"] and chance(d, 0.25):
                 cands = [f["n"] for f in fields if f.get("agg") is None and f.get("kind", "normal") == "normal"
                          and f.get("default") is not None and not f.get("required") and not (f.get("skip") or {}).get("de")]
                 if len(cands) >= 2:
@@ -646,6 +646,17 @@ def valid_object(draw, prog, t, dyn, fuel, stack) -> dict:
             for i, (_, v) in enumerate(list(m.items())[: len(EXTRA_KEYS)]):
                 out[EXTRA_KEYS[i]] = v
     for a, deps in (cd.get("dep_req") or {}).items():
+        if _BREAK_DEP[0]:
+            # (data_for "dep_violation") the requiring field is there - well-typed or not - and what it requires is not
+            fa = next(f for f in fields if f["n"] == a)
+            if a not in included or chance(draw, 0.3):
+                out[M.ext_name(fa, cd, dyn)] = valid(draw, prog, fa["t"], dyn, fuel, fa.get("c"), stack) if chance(draw, 0.7) else pick(draw, ATOMS)
+                included.add(a)
+            for b in deps:
+                fb = next(f for f in fields if f["n"] == b)
+                out.pop(M.ext_name(fb, cd, dyn), None)
+                included.discard(b)
+            continue
         if a in included:
             for b in deps:
                 if b not in included:
@@ -653,6 +664,9 @@ def valid_object(draw, prog, t, dyn, fuel, stack) -> dict:
                     out[M.ext_name(fb, cd, dyn)] = valid(draw, prog, fb["t"], dyn, fuel, fb.get("c"), stack)
                     included.add(b)
     return out
+
+
+_BREAK_DEP = [False]
 
 
 small_json = st.recursive(
@@ -796,6 +810,12 @@ def mutants(draw, d: Any, k: int):
 
 def data_for(draw, prog: dict, t: dict, dyn: str = "id", mix=(35, 30, 15, 20)):
     """One datum + its provenance tag."""
+    if any(cd and cd.get("dep_req") for cd in prog["classes"]) and chance(draw, 0.25):
+        _BREAK_DEP[0] = True
+        try:
+            return valid(draw, prog, t, dyn), "dep_violation"
+        finally:
+            _BREAK_DEP[0] = False
     r = draw(st.integers(0, 99))
     if r < mix[0]:
         return valid(draw, prog, t, dyn), "valid"
